@@ -10,6 +10,7 @@ import (
 	"encoding/binary"
 	"io"
 	"math"
+	"os"
 )
 
 // handleRead handles NFSPROC3_READ - read from file
@@ -45,6 +46,11 @@ func (h *NFSProcedureHandler) handleRead(body io.Reader, reply *RPCReply, authCt
 	node, ok := h.lookupNode(handleVal)
 	if !ok {
 		return nfsErrorWithPostOp(reply, NFSERR_STALE), nil
+	}
+	// A symbolic link has no data of its own; opening its path would follow the link
+	// and serve (and cache) another object's data under this handle.
+	if isSymlinkNode(node) {
+		return nfsErrorWithPostOp(reply, NFSERR_INVAL), nil
 	}
 
 	// R22: Return NFS error instead of nil,err
@@ -159,6 +165,10 @@ func (h *NFSProcedureHandler) handleWrite(body io.Reader, reply *RPCReply, authC
 		return nfsErrorWithWcc(reply, NFSERR_STALE), nil
 	}
 
+	if isSymlinkNode(node) {
+		return nfsErrorWithWcc(reply, NFSERR_INVAL), nil
+	}
+
 	if h.server.options.Debug {
 		h.server.logger.Printf("WRITE: handle=%d path='%s' offset=%d count=%d stable=%d", handleVal, node.path, offset, count, stable)
 	}
@@ -208,6 +218,16 @@ func (h *NFSProcedureHandler) handleWrite(body io.Reader, reply *RPCReply, authC
 
 	reply.Data = buf.Bytes()
 	return reply, nil
+}
+
+// isSymlinkNode reports whether the handle's object was a symbolic link when the handle
+// was issued. READ, WRITE and SETATTR act on the path of the handle and the backend
+// follows a link in the last component, so for a link they would read or modify a
+// different object, whose cached attributes would go stale.
+func isSymlinkNode(node *NFSNode) bool {
+	node.mu.RLock()
+	defer node.mu.RUnlock()
+	return node.attrs != nil && node.attrs.Mode&os.ModeSymlink != 0
 }
 
 // handleCommit handles NFSPROC3_COMMIT - commit cached data
